@@ -221,6 +221,7 @@ impl RawUnprocessedJSONArray {
                     token = ["".to_string(), char.to_string()].join(SYMBOL.empty_string);
                     let mut number_of_open_square_brackets = 1;
                     let mut number_of_closed_square_brackets = 0;
+                    let mut inside_string = false;
 
                     let mut read_nested_array = true;
                     while read_nested_array {
@@ -237,13 +238,18 @@ impl RawUnprocessedJSONArray {
                         bytes_read = bytes_read + length as i128;
                         let char = String::from_utf8(char_buffer).unwrap().chars().last().unwrap();
 
-                        let is_open_square_bracket = char == '[';
+                        // brackets inside a string value are text, not structure
+                        if char == '"' {
+                            inside_string = !inside_string;
+                        }
+
+                        let is_open_square_bracket = char == '[' && !inside_string;
                         if is_open_square_bracket {
                             number_of_open_square_brackets = number_of_open_square_brackets + 1;
                         }
 
 
-                        let is_close_square_bracket = char == ']';
+                        let is_close_square_bracket = char == ']' && !inside_string;
                         if is_close_square_bracket {
                             number_of_closed_square_brackets = number_of_closed_square_brackets + 1;
                         }
@@ -264,6 +270,7 @@ impl RawUnprocessedJSONArray {
                     token = ["".to_string(), char.to_string()].join(SYMBOL.empty_string);
                     let mut number_of_open_curly_braces = 1;
                     let mut number_of_closed_curly_braces = 0;
+                    let mut inside_string = false;
 
                     let mut read_nested_object = true;
                     while read_nested_object {
@@ -280,13 +287,18 @@ impl RawUnprocessedJSONArray {
                         bytes_read = bytes_read + length as i128;
                         let char = String::from_utf8(char_buffer).unwrap().chars().last().unwrap();
 
-                        let is_open_curly_brace = char == '{';
+                        // braces inside a string value are text, not structure
+                        if char == '"' {
+                            inside_string = !inside_string;
+                        }
+
+                        let is_open_curly_brace = char == '{' && !inside_string;
                         if is_open_curly_brace {
                             number_of_open_curly_braces = number_of_open_curly_braces + 1;
                         }
 
 
-                        let is_close_curly_brace = char == '}';
+                        let is_close_curly_brace = char == '}' && !inside_string;
                         if is_close_curly_brace {
                             number_of_closed_curly_braces = number_of_closed_curly_braces + 1;
                         }
